@@ -417,6 +417,21 @@ func IsSimulateCtx(c Ctx) bool {
 	return v
 }
 
+// pastHeightQueryCtxKey marks the context of a custom query that asks for a height other than the
+// latest committed one.
+type pastHeightQueryCtxKey struct{}
+
+// WithPastHeightQuery marks the context as that of a query at a past height (see
+// baseapp.handleQueryCustom).
+func (c Context) WithPastHeightQuery() Context { return c.WithValue(pastHeightQueryCtxKey{}, true) }
+
+// IsPastHeightQueryCtx reports whether a querier runs on the state of a past height: services
+// that act on the node (serving a relay, a dispatch, a challenge) are offered on the latest state only.
+func IsPastHeightQueryCtx(c Ctx) bool {
+	v, _ := c.Value(pastHeightQueryCtxKey{}).(bool)
+	return v
+}
+
 // WithValue is deprecated, provided for backwards compatibility
 // Please use
 //     ctx = ctx.WithContext(context.WithValue(ctx.Context(), key, false))
